@@ -2,14 +2,15 @@
 
 (a) API-driven: every exception kind x source mode x T x ITSTATE x A/I/F x PC x extension configuration x the full
     product of the routing bits that kind's pseudocode reads, plus every single deviation of the other routing bits.
-(b) instruction-driven: SVC / SMC / UDF / an unallocated word / alignment-faulting LDR and STR, in both instruction
+(b) instruction-driven: SVC / SMC / UDF / an unallocated word / alignment-faulting LDR and STR (base r1 and the mode's own
+    banked SP / LR) / WFI, WFE and SMC with and without their Hyp trap controls (HCR.TWI / TWE / TSC), in both instruction
     sets, stepped with emulate_cycle() - this checks the return-address arithmetic against the real PC."""
 import itertools
 
 from ..runner import Result
 from .. import machine, sweep
-from ..ref import exc as rexc, bv
-from ..ref.state import St, ModelStop, USR, FIQ, IRQ, SVC, MON, ABT, HYP, UND, SYS
+from ..ref import exc as rexc, bv, rows_sys
+from ..ref.state import St, ModelStop, Unpredictable, USR, FIQ, IRQ, SVC, MON, ABT, HYP, UND, SYS
 
 ID = "C11"
 CONFIGS = [
@@ -24,6 +25,7 @@ BITS = {
     "SCTLR.NMFI": ("sctlr", 27), "HSCTLR.TE": ("hsctlr", 30), "HSCTLR.EE": ("hsctlr", 25),
     "SCR.NS": ("scr", 0), "SCR.IRQ": ("scr", 1), "SCR.FIQ": ("scr", 2), "SCR.EA": ("scr", 3), "SCR.FW": ("scr", 4),
     "SCR.AW": ("scr", 5), "HCR.TGE": ("hcr", 27), "HCR.AMO": ("hcr", 5), "HCR.IMO": ("hcr", 4), "HCR.FMO": ("hcr", 3),
+    "HCR.TWI": ("hcr", 13), "HCR.TWE": ("hcr", 14), "HCR.TSC": ("hcr", 19),
 }
 RELEVANT = {
     "undef": ["SCTLR.V", "SCTLR.TE", "SCTLR.EE", "HSCTLR.TE", "HSCTLR.EE", "SCR.NS", "HCR.TGE"],
@@ -281,20 +283,30 @@ def instr_shard(res, ci, thumb, tier):
     plan = c.plan
     ix = c.ix
     names = plan.names
+    # (kind, word, length, base register of the misaligned access, trap-control bit enumerated in addition)
     if thumb:
-        progs = [("svc", 0xDF05, 16), ("undef", 0xDE01, 16), ("smc", 0xF7F18000, 32), ("undef", 0xF7F0A000, 32),
-                 ("ldr-align", 0x6808, 16), ("str-align", 0x6008, 16)]
+        progs = [("svc", 0xDF05, 16, None, None), ("undef", 0xDE01, 16, None, None), ("smc", 0xF7F18000, 32, None, "HCR.TSC"),
+                 ("undef", 0xF7F0A000, 32, None, None), ("ldr-align", 0x6808, 16, 1, None), ("str-align", 0x6008, 16, 1, None),
+                 ("ldr-align", 0x9800, 16, 13, None), ("ldr-align", 0xF8DE0000, 32, 14, None),       # banked base registers
+                 ("wfi", 0xBF30, 16, None, "HCR.TWI"), ("wfi", 0xF3AF8003, 32, None, "HCR.TWI"), ("wfe", 0xBF20, 16, None, "HCR.TWE")]
     else:
-        progs = [("svc", 0xEF000005, 32), ("undef", 0xE7F000F0, 32), ("smc", 0xE1600071, 32),
-                 ("ldr-align", 0xE5910000, 32), ("str-align", 0xE5810000, 32)]
+        progs = [("svc", 0xEF000005, 32, None, None), ("undef", 0xE7F000F0, 32, None, None), ("smc", 0xE1600071, 32, None, "HCR.TSC"),
+                 ("ldr-align", 0xE5910000, 32, 1, None), ("str-align", 0xE5810000, 32, 1, None),
+                 ("ldr-align", 0xE59E0000, 32, 14, None), ("str-align", 0xE58D0000, 32, 13, None),   # banked base registers
+                 ("wfi", 0xE320F003, 32, None, "HCR.TWI"), ("wfe", 0xE320F002, 32, None, "HCR.TWE")]
     pcs = [0x10800, 0x10, 0xFFFFFFF8 if not thumb else 0xFFFFFFFA]
     bits = ["SCTLR.V", "SCTLR.TE", "SCTLR.EE", "SCR.NS", "HCR.TGE", "SCR.AW"]
     bits = [b for b in bits if not (b.startswith("HCR") and not cfgd.get("have_virt_ext"))
             and not (b.startswith("SCR") and not cfgd.get("have_security_ext"))]
     its = [0] if not thumb else [0, 0xE8, 0xE4, 0x08]     # AL / EQ(with Z=0: fails -> no exception)
-    for (kind, word, olen), mode, vals, pc, it, aif in itertools.product(
-            progs, MODES, itertools.product((0, 1), repeat=len(bits)), pcs, its, (0, 7)):
+    virt = bool(cfgd.get("have_virt_ext"))
+    for (kind, word, olen, basereg, trapbit), mode, vals, pc, it, aif, trap in itertools.product(
+            progs, MODES, itertools.product((0, 1), repeat=len(bits)), pcs, its, (0, 7), (0, 1)):
+        if trap and not (trapbit and virt):
+            continue
         assign = dict(zip(bits, vals))
+        if trap:
+            assign[trapbit] = 1
         ns = assign.get("SCR.NS", 0)
         if not valid_state(cfgd, mode, ns):
             continue
@@ -312,8 +324,9 @@ def instr_shard(res, ci, thumb, tier):
         regs[ix["cpsr"]] = cpsr
         regs[ix["R.PC"]] = pc
         from ..ref.state import phys
-        regs[ix[phys(1, mode)]] = 0x10101            # unaligned base for LDR/STR
         regs[ix[phys(0, mode)]] = 0x600DF00D
+        if basereg is not None:
+            regs[ix[phys(basereg, mode)]] = 0x10101  # unaligned base for LDR/STR (r1, or the mode's own SP / LR)
         pre = tuple(regs)
         plan.restore((pre, c.base[1]))
         machine.put_instr(c.cpu, pc, word, bool(thumb), olen)
@@ -331,14 +344,30 @@ def instr_shard(res, ci, thumb, tier):
             cond = it >> 4
             passed = bv.cond_holds(cond, st.N, st.Z, st.C, st.V)
         k = kind
-        if kind == "smc" and (not cfgd.get("have_security_ext") or mode == USR):
-            k = "undef"
+        if not passed:
+            if kind == "smc" and (not cfgd.get("have_security_ext") or mode == USR):
+                k = "undef"
+        elif kind in ("smc", "wfi", "wfe"):
+            # the system-instruction semantics of the reference model decide between the plain effect, the Hyp trap
+            # (HCR.TSC / TWI / TWE), UNDEFINED and the Secure Monitor Call
+            try:
+                {"smc": rows_sys.sem_smc, "wfi": rows_sys.sem_wfi, "wfe": rows_sys.sem_wfe}[kind](st, {}, {})
+                k = "completes"
+            except ModelStop as ms_:
+                k = ms_.kind
+            except Unpredictable:
+                res.outcome("model-unpredictable")
+                continue
         if not passed and k != "undef":
             st.finish()
             st.it_advance()
         elif not passed and k == "undef":
             res.outcome("impdef-skipped")     # UNDEFINED with a failing condition: IMPLEMENTATION DEFINED
             continue
+        elif k == "completes":
+            st.finish()
+            if thumb and it & 0xF:
+                st.it_advance()
         elif k in ("ldr-align", "str-align"):
             write = k == "str-align"
             addr = 0x10101
